@@ -1,6 +1,7 @@
 // C12 harness: copies are independent, read-only inputs stay unchanged.
 // Streams (see coq/C12/Corr.v): S scalars / dense vectors of magic scalars, M dense matrices,
 // J (round 3, coq/C12/CorrJ.v) entry points of the Real containers on operands holding jets at order 2,
+// C (round 5, coq/C12/CorrA.v) As-conversions between representations, I (round 5) clones of plain and joint iterators,
 // V sparse vectors, E algorithm entry points and distribution constructors, H (coq/C12/CorrH.v) HISTORIES:
 // sequences of calls of one entry point sharing a caller-owned InSitu struct, and of one estimator.
 //
@@ -43,6 +44,10 @@ func main() {
 		os.Exit(replay(o))
 	case o.Extra == "hunt":
 		os.Exit(hunt(o))
+	case o.Extra == "ci": // only the round-5 streams (debugging aid)
+		runConvStream(o, o.N)
+		runIterStream(o, o.N)
+		return
 	}
 	rng := NewRng(o.Seed)
 	nS, nM, nV, nE := o.N, o.N, o.N/2, o.N
@@ -112,6 +117,9 @@ func main() {
 	}
 	// ---- J (round 3): typed containers of jets
 	runJetStream(o, jRng(o.Seed), o.N)
+	// ---- C (round 5): As-conversions in the cell model; I (round 5): iterator clones
+	runConvStream(o, o.N)
+	runIterStream(o, o.N)
 	// ---- E
 	runEntryStream(o, rng.Split(), nE)
 	// ---- H
